@@ -93,10 +93,14 @@ def run_unit(ctx: Ctx, qualname: str) -> None:
         cc0 = interp.class_contract(interp.unit_self)
         for cl in cc0.task_inv.get(fc.task, []):
             interp.assume_clause(cl, {"self": interp.unit_self}, None, mi, f"task invariant {cl.name}")
+    if interp.unit_self is not None and not is_init:
+        interp.assume_monitor(interp.unit_self)
     if ctx.check_full() != z3.sat:
         ctx.covers[f"{unit}.entry"] = False
         raise PathEnd("precondition unsatisfiable")
     ctx.covers[f"{unit}.entry"] = True
+    if fc.model_opts.get("clock"):
+        interp.clock = z3.Real("t0")  # the ghost clock runs from the entry of the unit
     interp.run_ghost(fc.ghost_pre, env, Frame(qualname, mi), module=mi)
     old_env = interp.snapshot_env(env)
     if interp.unit_self is not None:
@@ -169,6 +173,7 @@ def finish_unit(interp: Interp, fc: FnContract, env, old_env, exceptional: bool)
         for cl in cc.inv:
             v = interp.spec_eval_p(cl, {"self": us}, None)
             ctx.prove(f"{unit}.exit.{cl.name}", interp.as_z3_bool(v), cl.text, where_exit, note="class invariant at exit", props=tuple(cl.props) or fc.props)
+        interp.prove_monitor(us, where_exit, "exit")
         if not interp.in_init and getattr(interp, "segment_start", None) is not None:
             interp.check_guarantee(where_exit, "exit")
         interp.prove_published(where_exit)
@@ -176,6 +181,21 @@ def finish_unit(interp: Interp, fc: FnContract, env, old_env, exceptional: bool)
             for cl in cc.task_inv.get(fc.task, []):
                 v = interp.spec_eval_p(cl, {"self": us}, None)
                 ctx.prove(f"{unit}.exit.{cl.name}", interp.as_z3_bool(v), cl.text, where_exit, note=f"quiescent invariant of task {fc.task} at exit", props=tuple(cl.props) or fc.props)
+    if us is not None and isinstance(us.cls, type):
+        cc_l = interp.class_contract(us)
+        if cc_l is not None and (cc_l.lock_protected or cc_l.write_once):
+            from .source import lock_discipline_violations
+
+            if cc_l.write_once:
+                from .source import write_once_violations
+
+                bad = write_once_violations(us.cls, cc_l.write_once)
+                ctx.prove(f"{unit}.write-once", z3.BoolVal(not bad), f"fields {cc_l.write_once} are assigned at one program point outside __init__, not in a loop", where_exit,
+                          note="; ".join(bad) or "syntactic scan of the class", props=fc.props, assume_after=False)
+            for lk, prot in cc_l.lock_protected.items():
+                bad = lock_discipline_violations(us.cls, lk, prot)
+                ctx.prove(f"{unit}.lock-discipline.{lk}", z3.BoolVal(not bad), f"fields {prot} are written (and tasks started / cancelled) only while self.{lk} is held", where_exit,
+                          note="; ".join(bad) or "syntactic scan of the class", props=fc.props, assume_after=False)
     n_y = getattr(interp, "n_yields", 0)
     if fc.effect == "atomic":
         ctx.prove(f"{unit}.atomic", z3.BoolVal(n_y == 0), "declared atomic: no suspending await on any path", where_exit, note=f"{n_y} yield point(s) on this path", props=fc.props, assume_after=False)
